@@ -49,6 +49,18 @@ pub fn check_tx(tx: &MultiEraTx, view: &TxView, src: &[u8], obs: &mut Obs, diver
     if recomputed.as_ref() != want {
         *diverges = true;
         obs.class("diverges:tx-body");
+        // the recomputed hash may only differ when the library's re-encoding of the body differs from the wire bytes
+        let reenc = match tx {
+            MultiEraTx::AlonzoCompatible(x, _) => pallas_codec::minicbor::to_vec(&*x.transaction_body).ok(),
+            MultiEraTx::Babbage(x) => pallas_codec::minicbor::to_vec(&*x.transaction_body).ok(),
+            MultiEraTx::Byron(x) => pallas_codec::minicbor::to_vec(&*x.transaction).ok(),
+            MultiEraTx::Conway(x) => pallas_codec::minicbor::to_vec(&*x.transaction_body).ok(),
+            _ => None,
+        };
+        if let Some(r) = reenc {
+            pv_ensure!(r != view.body.span(src), format!("c05-compute-hash-differs-although-reencoding-is-identical:tx:{ec}"),
+                "the body re-encodes to exactly its wire bytes, yet compute_hash() = {} and the wire hash is {}", recomputed, hexs(&want));
+        }
     }
     if view.byron {
         return Ok(());
@@ -166,6 +178,16 @@ fn check_header(h: &MultiEraHeader, era_tag: u64, node: &cborx::Node, src: &[u8]
     if recomputed.as_ref() != want {
         *diverges = true;
         obs.class("diverges:header");
+        let reenc = match h {
+            MultiEraHeader::EpochBoundary(x) => pallas_codec::minicbor::to_vec(&***x).ok(),
+            MultiEraHeader::Byron(x) => pallas_codec::minicbor::to_vec(&***x).ok(),
+            MultiEraHeader::ShelleyCompatible(x) => pallas_codec::minicbor::to_vec(&***x).ok(),
+            MultiEraHeader::BabbageCompatible(x) => pallas_codec::minicbor::to_vec(&***x).ok(),
+        };
+        if let Some(r) = reenc {
+            pv_ensure!(r != node.span(src), format!("c05-compute-hash-differs-although-reencoding-is-identical:header:{}", header_class(h)),
+                "the header re-encodes to exactly its wire bytes, yet compute_hash() = {} and the wire hash is {}", recomputed, hexs(&want));
+        }
     }
     Ok(())
 }
